@@ -33,7 +33,13 @@ class Describer:
                 else:
                     return 'directory'
         elif self.fs.isfile(path):
-            if self.fs.getsize(path) == 0:
+            try:
+                size = self.fs.getsize(path)
+            except (IOError, OSError):
+                # the description goes into a failure message: it must not
+                # fail in turn when the file cannot be examined any more
+                return 'regular file'
+            if size == 0:
                 return 'regular empty file'
             else:
                 return 'regular file'
